@@ -1,6 +1,7 @@
 SPECIFICATION Spec
 CONSTANTS
   GuardReserved = FALSE
+  GuardNul = TRUE
   MaxSegs = 2
   MaxRecs = 2
   MaxPath = 4
